@@ -427,7 +427,8 @@ def main():
             violations.append((p, 'no-failing-input-found')); continue
         t1 = time.time()
         only = spec.get('only')
-        sel = [k for k, l in enumerate(lines) if (not only) or l.split(' ', 1)[0] in only]
+        excl = set(cfg.get('exclude', {}).get(conf, []))      # ops whose documented contract a configuration cannot honour (see props.py)
+        sel = [k for k, l in enumerate(lines) if ((not only) or l.split(' ', 1)[0] in only) and l.split(' ', 1)[0] not in excl]
         if spec.get('sample') and len(sel) > spec['sample']:
             pref = spec.get('prefer', [])
             first = [k for k in sel if tags[k][0] in pref or lines[k].split(' ', 1)[0] in pref]
